@@ -6,16 +6,23 @@ import XjsModel.Proofs.LexPrintTree
 namespace Xjs.LP
 open Xjs Xjs.RA
 
-theorem blanks_eof : ∀ (n : Nat) (s : LS), s.rest = List.replicate n 32 → (nextToken s).1.type = .eof ∧ (nextToken s).1.lit = []
-  | 0, s, h => by rw [nextToken_at_end s (by simpa using h)]; exact ⟨rfl, rfl⟩
+/-- everything the parser can see of a token but its position -/
+def keyOf4 (t : Token) : Key × Bool × List Bytes := ((t.type, t.lit), t.nl, t.comments)
+/-- the key of a token that stands on the line of its predecessor with no comment in between -/
+def quietKey (t : Token) : Key × Bool × List Bytes := ((t.type, t.lit), false, [])
+def eofKey : Key × Bool × List Bytes := ((.eof, []), false, [])
+
+theorem blanks_eof : ∀ (n : Nat) (s : LS), s.rest = List.replicate n 32 → keyOf4 (nextToken s).1 = eofKey
+  | 0, s, h => by rw [nextToken_at_end s (by simpa using h)]; rfl
   | n + 1, s, h => by
     rw [nextToken_blank s (List.replicate n 32) (by rw [h, List.replicate_succ])]
     exact blanks_eof n (readChar s) (by rw [readChar_rest, h, List.replicate_succ]; rfl)
 
-/-- if the text lexes to `ks` and nothing is left, `lexGo` (with enough fuel) returns tokens with exactly those keys,
-    followed by the end-of-input token -/
+/-- if the text lexes to `ks` and nothing is left, `lexGo` (with enough fuel) returns tokens with exactly those keys, none
+    of them after a line break or a comment, followed by the end-of-input token -/
 theorem lexGo_of_LexTo {b : Bytes} {ks : List Key} {r : Bytes} (h : LexTo b ks r) (hr : r = []) :
-    ∀ (fuel : Nat) (s : LS), s.rest = b → b.length < fuel → (lexGo fuel s).map keyOf = ks ++ [(.eof, [])] := by
+    ∀ (fuel : Nat) (s : LS), s.rest = b → b.length < fuel →
+      (lexGo fuel s).map keyOf4 = ks.map (fun k => (k, false, [])) ++ [eofKey] := by
   induction h with
   | done n r =>
     intro fuel s hs hf
@@ -23,8 +30,10 @@ theorem lexGo_of_LexTo {b : Bytes} {ks : List Key} {r : Bytes} (h : LexTo b ks r
     cases fuel with
     | zero => omega
     | succ fuel =>
-      obtain ⟨h1, h2⟩ := blanks_eof n s (by simpa using hs)
-      simp only [lexGo, h1, beq_self_eq_true, if_true, List.map_cons, List.map_nil, List.nil_append, keyOf, h2]
+      have h1 := blanks_eof n s (by simpa using hs)
+      have hty : (nextToken s).1.type = .eof := by
+        have := congrArg (fun x => x.1.1) h1; simpa [keyOf4, eofKey] using this
+      simp only [lexGo, hty, beq_self_eq_true, if_true, List.map_cons, List.map_nil, List.nil_append, h1]
   | @tok b b' r k ks hk hne _ ih =>
     intro fuel s hs hf
     cases fuel with
@@ -34,22 +43,20 @@ theorem lexGo_of_LexTo {b : Bytes} {ks : List Key} {r : Bytes} (h : LexTo b ks r
       simp only [key3, Prod.mk.injEq] at h3
       have hty : (nextToken s).1.type ≠ .eof := by rw [show (nextToken s).1.type = k.1 from by rw [← h3.1]]; exact hne
       have hlt := nextToken_progress s hty
-      have hrest : (nextToken s).2.rest = b' := h3.2
+      have hrest : (nextToken s).2.rest = b' := h3.2.1
       have := ih hr fuel (nextToken s).2 hrest (by rw [hrest] at hlt; rw [hs] at hlt; omega)
       simp only [lexGo, show ((nextToken s).1.type == TokType.eof) = false from by simpa using hty, Bool.false_eq_true, if_false,
         List.map_cons, this, List.cons_append]
       congr 1
-      rw [← h3.1]; rfl
+      simp only [keyOf4, h3.2.2.1, h3.2.2.2]
+      rw [← h3.1]
 
-theorem lexAll_of_LexTo {src : Bytes} {ks : List Key} (h : LexTo src ks []) : (lexAll src).map keyOf = ks ++ [(.eof, [])] :=
+theorem lexAll_of_LexTo {src : Bytes} {ks : List Key} (h : LexTo src ks []) :
+    (lexAll src).map keyOf4 = ks.map (fun k => (k, false, [])) ++ [eofKey] :=
   lexGo_of_LexTo h rfl (src.length + 1) (LS.init src) rfl (Nat.lt_succ_self _)
 
-/-- COMPACT TEXT → TOKENS: for every well-formed program tree with lexically sane tokens, the text the compiler emits in
-    compact mode (with or without a source map) is read by the lexer as exactly the tokens `toks` of the tree (type and
-    literal of each), followed by end of input -/
-theorem compact_text_lexes (cfg : CompCfg) (hc : cfg.pretty = false) (prog : SSList) (hw : prog.wf = true) (ht : prog.term = true)
-    (hs : saneB prog) : (lexAll (compile cfg prog.tree).code).map keyOf = prog.toks.map keyOf ++ [(.eof, [])] := by
-  apply lexAll_of_LexTo
+theorem compact_LexTo (cfg : CompCfg) (hc : cfg.pretty = false) (prog : SSList) (hw : prog.wf = true) (ht : prog.term = true)
+    (hs : saneB prog) : LexTo (compile cfg prog.tree).code (prog.toks.map keyOf) [] := by
   unfold compile
   simp only [hc, Bool.false_eq_true, if_false]
   obtain ⟨fc, h, ha⟩ := (lexB prog hw ht hs).2 true
@@ -57,6 +64,21 @@ theorem compact_text_lexes (cfg : CompCfg) (hc : cfg.pretty = false) (prog : SSL
                  mapper := if cfg.sourceMap then some Mapper.new else none } hc rfl rfl) allOK_any
   have := h.lex [] (ha [])
   simpa [hc] using this
+
+/-- COMPACT TEXT → TOKENS: for every well-formed program tree with lexically sane tokens, the text the compiler emits in
+    compact mode (with or without a source map) is read by the lexer as exactly the tokens `toks` of the tree — type and
+    literal of each, no token after a line break, none with a comment — followed by end of input -/
+theorem compact_text_lexes4 (cfg : CompCfg) (hc : cfg.pretty = false) (prog : SSList) (hw : prog.wf = true) (ht : prog.term = true)
+    (hs : saneB prog) : (lexAll (compile cfg prog.tree).code).map keyOf4 = prog.toks.map quietKey ++ [eofKey] := by
+  rw [lexAll_of_LexTo (compact_LexTo cfg hc prog hw ht hs), List.map_map]
+  rfl
+
+theorem compact_text_lexes (cfg : CompCfg) (hc : cfg.pretty = false) (prog : SSList) (hw : prog.wf = true) (ht : prog.term = true)
+    (hs : saneB prog) : (lexAll (compile cfg prog.tree).code).map keyOf = prog.toks.map keyOf ++ [(.eof, [])] := by
+  have := congrArg (List.map Prod.fst) (compact_text_lexes4 cfg hc prog hw ht hs)
+  have e : keyOf = fun x : Token => (x.type, x.lit) := rfl
+  rw [e]
+  simpa [List.map_map, Function.comp_def, keyOf4, quietKey, eofKey] using this
 
 /-! ## decidable sufficient conditions for literal sanity -/
 
